@@ -58,6 +58,8 @@ Clauses(ev) ==
     CASE ev.e = "case"   -> CaseViol(ev)
       [] ev.e = "rotvec" -> V(CloseVec(ev.v, ev.v2, S), "RotVecMatRoundTrip") \cup V(Ortho(ev.M), "RotVecToMatOrthonormal")
                             \cup V(CloseMat(ev.avg, ev.M, S), "AverageOfIdentical")
+      \* any angle: orthonormal, and the same matrix as for the vector reduced by whole turns (which the round-trip law covers)
+      [] ev.e = "rotany" -> V(Ortho(ev.M), "RotVecToMatOrthonormal") \cup V(CloseMat(ev.M, ev.Mr, S), "RotVecToMatWholeTurnsDoNotMatter")
       [] ev.e = "sphere" -> SphereViolS(ev.P, ev.center, ev.radius, IF "slack" \in DOMAIN ev THEN ev.slack ELSE 3)
       [] ev.e = "bounds" -> SphereViol(ev.P, ev.center, ev.radius)
       [] ev.e = "crash"  -> {"NoCrash"}
